@@ -1,7 +1,529 @@
 package sym
 
-import "golang.org/x/tools/go/ssa"
+import (
+	"fmt"
+	"go/types"
+	"strings"
+
+	"gosym/smt"
+
+	"golang.org/x/tools/go/ssa"
+)
+
+// Model of github.com/mitchellh/mapstructure v1.1.2 Decode with its default configuration
+// (no hooks, strict typing, TagName "mapstructure", ZeroFields false), written against the
+// engine's values. It follows the library function by function (decode, decodeBasic,
+// decodeStruct[FromMap], decodeMap[FromMap|FromStruct], decodePtr, decodeSlice, ...).
+// Outside the model: WeaklyTypedInput, decode hooks, squash tags, json.Number, arrays,
+// two source keys that differ only in case (the library itself iterates a Go map there).
+
+type msPlace struct {
+	p Pointer
+	t types.Type
+	settable bool
+}
+
+type msErr struct{ msg string }
+
+func kindOf(t types.Type) string {
+	switch u := t.Underlying().(type) {
+	case *types.Basic:
+		switch {
+		case u.Info()&types.IsBoolean != 0:
+			return "bool"
+		case u.Info()&types.IsString != 0:
+			return "string"
+		case u.Info()&types.IsUnsigned != 0:
+			return "uint"
+		case u.Info()&types.IsInteger != 0:
+			return "int"
+		case u.Info()&types.IsFloat != 0:
+			return "float"
+		}
+	case *types.Struct:
+		return "struct"
+	case *types.Map:
+		return "map"
+	case *types.Pointer:
+		return "ptr"
+	case *types.Slice:
+		return "slice"
+	case *types.Array:
+		return "array"
+	case *types.Interface:
+		return "interface"
+	case *types.Signature:
+		return "func"
+	}
+	return "invalid"
+}
+
+// toData boxes a value of static type t the way reflect's Value.Interface() does.
+func toData(v Value, t types.Type) Iface {
+	if _, ok := t.Underlying().(*types.Interface); ok {
+		if i, ok := v.(Iface); ok {
+			return i
+		}
+		return Iface{}
+	}
+	return Iface{T: t, V: v}
+}
+
+func (in *Interp) msLoad(pl msPlace) Value { return loadPath(pl.p.O.V, pl.p.Path) }
+
+func (in *Interp) msStore(pl msPlace, v Value, site ssa.Instruction) {
+	in.store(pl.p, v, site, nil)
+	if in.trackWrites && (pl.p.O.Epoch < in.epoch || pl.p.O.Owner != 0) {
+		in.Writes = append(in.Writes, WriteEvent{Site: "mapstructure.Decode@" + in.site(site), Label: pl.p.O.Label, Owned: pl.p.O.Owner != 0})
+	}
+}
+
+// indirect follows a pointer in source data (reflect.Indirect).
+func (in *Interp) msIndirect(d Iface) (Value, types.Type, bool) {
+	if d.T == nil {
+		return nil, nil, false
+	}
+	if pt, ok := d.T.Underlying().(*types.Pointer); ok {
+		p := d.V.(Pointer)
+		if p.O == nil {
+			return nil, pt.Elem(), false
+		}
+		return loadPath(p.O.V, p.Path), pt.Elem(), true
+	}
+	return d.V, d.T, true
+}
 
 func (in *Interp) mapstructureDecode(src, dst Value, site ssa.Instruction) Value {
-	panic(Unsupported{"mapstructure.Decode (model not yet available)"})
+	out := dst.(Iface)
+	if out.T == nil {
+		return Iface{T: opaqueErrorType, V: &Opaque{Desc: "result must be a pointer"}}
+	}
+	pt, ok := out.T.Underlying().(*types.Pointer)
+	if !ok {
+		return Iface{T: opaqueErrorType, V: &Opaque{Desc: "result must be a pointer"}}
+	}
+	p := out.V.(Pointer)
+	if p.O == nil {
+		in.runtimePanic("mapstructure: nil result pointer", site)
+	}
+	var errs []string
+	in.msDecode("", src.(Iface), msPlace{p: p, t: pt.Elem(), settable: true}, site, &errs)
+	if len(errs) > 0 {
+		return Iface{T: opaqueErrorType, V: &Opaque{Desc: "mapstructure: " + strings.Join(errs, "; ")}}
+	}
+	return Iface{}
+}
+
+func (in *Interp) msDecode(name string, input Iface, out msPlace, site ssa.Instruction, errs *[]string) bool {
+	if input.T == nil {
+		return true
+	}
+	if _, isPtr := input.T.Underlying().(*types.Pointer); isPtr {
+		if input.V.(Pointer).O == nil {
+			return true
+		}
+	}
+	fail := func(format string, a ...interface{}) bool {
+		*errs = append(*errs, fmt.Sprintf(format, a...))
+		return false
+	}
+	switch kindOf(out.t) {
+	case "bool":
+		dv, dt, ok := in.msIndirect(input)
+		if ok && kindOf(dt) == "bool" {
+			in.msStore(out, dv, site)
+			return true
+		}
+		return fail("'%s' expected type '%s', got unconvertible type '%v'", name, out.t, dt)
+	case "interface":
+		return in.msDecodeBasic(name, input, out, site, errs)
+	case "string":
+		dv, dt, ok := in.msIndirect(input)
+		if ok && kindOf(dt) == "string" {
+			in.msStore(out, dv, site)
+			return true
+		}
+		return fail("'%s' expected type '%s', got unconvertible type '%v'", name, out.t, dt)
+	case "int", "uint":
+		dv, dt, ok := in.msIndirect(input)
+		if !ok {
+			return fail("'%s' expected type '%s', got unconvertible type '%v'", name, out.t, dt)
+		}
+		switch kindOf(dt) {
+		case "int", "uint":
+			if kindOf(out.t) == "uint" && kindOf(dt) == "int" && dv.(int64) < 0 {
+				return fail("cannot parse '%s', %d overflows uint", name, dv)
+			}
+			in.msStore(out, wrapInt(dv.(int64), out.t), site)
+			return true
+		case "float":
+			switch f := dv.(type) {
+			case float64:
+				if kindOf(out.t) == "uint" && f < 0 {
+					return fail("cannot parse '%s', %f overflows uint", name, f)
+				}
+				in.msStore(out, in.convert(f, dt, out.t, site), site)
+			case *smt.Term:
+				k := in.P.ConcretizeInt(in, f, "mapstructure float->int "+name)
+				if kindOf(out.t) == "uint" && k < 0 {
+					return fail("cannot parse '%s', overflows uint", name)
+				}
+				in.msStore(out, wrapInt(k, out.t), site)
+			}
+			return true
+		}
+		return fail("'%s' expected type '%s', got unconvertible type '%v'", name, out.t, dt)
+	case "float":
+		dv, dt, ok := in.msIndirect(input)
+		if !ok {
+			return fail("'%s' expected type '%s', got unconvertible type '%v'", name, out.t, dt)
+		}
+		switch kindOf(dt) {
+		case "int":
+			in.msStore(out, float64(dv.(int64)), site)
+			return true
+		case "uint":
+			in.msStore(out, float64(uint64(dv.(int64))), site)
+			return true
+		case "float":
+			in.msStore(out, dv, site)
+			return true
+		}
+		return fail("'%s' expected type '%s', got unconvertible type '%v'", name, out.t, dt)
+	case "struct":
+		return in.msDecodeStruct(name, input, out, site, errs)
+	case "map":
+		return in.msDecodeMap(name, input, out, site, errs)
+	case "ptr":
+		return in.msDecodePtr(name, input, out, site, errs)
+	case "slice":
+		return in.msDecodeSlice(name, input, out, site, errs)
+	case "func":
+		dv, dt, ok := in.msIndirect(input)
+		if ok && types.Identical(dt, out.t) {
+			in.msStore(out, dv, site)
+			return true
+		}
+		return fail("'%s' expected type '%s', got unconvertible type '%v'", name, out.t, dt)
+	}
+	return fail("%s: unsupported type: %s", name, kindOf(out.t))
+}
+
+func (in *Interp) msDecodeBasic(name string, data Iface, out msPlace, site ssa.Instruction, errs *[]string) bool {
+	cur, _ := in.msLoad(out).(Iface)
+	if cur.T != nil {
+		// decode into the element the interface currently holds; only a pointer element is
+		// addressable through reflect (anything else makes the library panic in Set)
+		if pt, ok := cur.T.Underlying().(*types.Pointer); ok {
+			p := cur.V.(Pointer)
+			if p.O == nil {
+				return true
+			}
+			// decodePtr with a non-settable pointer: decode into the pointee
+			if data.T == nil {
+				return true
+			}
+			return in.msDecode(name, data, msPlace{p: p, t: pt.Elem(), settable: true}, site, errs)
+		}
+		switch kindOf(cur.T) {
+		case "bool", "string", "int", "uint", "float", "struct", "map", "slice":
+			// reflect: Set on an unaddressable value panics
+			in.goPanic(Iface{T: opaqueErrorType, V: &Opaque{Desc: "reflect: reflect.Value.Set using unaddressable value (mapstructure into non-empty interface)"}}, site, true)
+		}
+		return true
+	}
+	dt := data.T
+	dv := data.V
+	if pt, ok := dt.Underlying().(*types.Pointer); ok && types.Identical(pt.Elem(), out.t) {
+		p := dv.(Pointer)
+		dv, dt = loadPath(p.O.V, p.Path), pt.Elem()
+	}
+	if !types.AssignableTo(dt, out.t) {
+		*errs = append(*errs, fmt.Sprintf("'%s' expected type '%s', got '%s'", name, out.t, dt))
+		return false
+	}
+	in.msStore(out, Iface{T: dt, V: dv}, site)
+	return true
+}
+
+func (in *Interp) msDecodePtr(name string, data Iface, out msPlace, site ssa.Instruction, errs *[]string) bool {
+	dv, dt, ok := in.msIndirect(data)
+	isNil := !ok
+	if ok {
+		switch kindOf(dt) {
+		case "map":
+			isNil = dv.(*MapV) == nil
+		case "slice":
+			isNil = dv.(Slice).Arr == nil
+		case "interface":
+			isNil = dv.(Iface).T == nil
+		case "ptr":
+			isNil = dv.(Pointer).O == nil
+		case "func":
+			isNil = dv == nil
+		}
+	}
+	cur := in.msLoad(out).(Pointer)
+	if isNil {
+		if cur.O != nil {
+			in.msStore(out, Pointer{}, site)
+		}
+		return true
+	}
+	elem := out.t.Underlying().(*types.Pointer).Elem()
+	real := cur
+	if real.O == nil {
+		real = Pointer{O: in.newObj(in.zero(elem), "mapstructure new "+elem.String())}
+	}
+	if !in.msDecode(name, data, msPlace{p: real, t: elem, settable: true}, site, errs) {
+		return false
+	}
+	in.msStore(out, real, site)
+	return true
+}
+
+func (in *Interp) msDecodeSlice(name string, data Iface, out msPlace, site ssa.Instruction, errs *[]string) bool {
+	dv, dt, ok := in.msIndirect(data)
+	elemT := out.t.Underlying().(*types.Slice).Elem()
+	cur := in.msLoad(out).(Slice)
+	k := ""
+	if ok {
+		k = kindOf(dt)
+	}
+	var srcElems []Value
+	var srcElemT types.Type
+	if k == "slice" {
+		s := dv.(Slice)
+		srcElemT = dt.Underlying().(*types.Slice).Elem()
+		for i := 0; i < s.Len; i++ {
+			srcElems = append(srcElems, s.Arr.V.(*ArrayV).E[s.Off+i])
+		}
+	} else if k == "array" {
+		a := dv.(*ArrayV)
+		srcElemT = dt.Underlying().(*types.Array).Elem()
+		srcElems = a.E
+	}
+	valSlice := cur
+	if cur.Arr == nil {
+		if k != "slice" && k != "array" {
+			*errs = append(*errs, fmt.Sprintf("'%s': source data must be an array or slice, got %s", name, k))
+			return false
+		}
+		if len(srcElems) == 0 {
+			return true
+		}
+		valSlice = in.makeSlice(elemT, len(srcElems), len(srcElems), "mapstructure slice")
+	} else if k != "slice" && k != "array" {
+		// the library would call dataVal.Len() on a non-slice and panic
+		in.goPanic(Iface{T: opaqueErrorType, V: &Opaque{Desc: "reflect: call of reflect.Value.Len on " + k + " Value"}}, site, true)
+	}
+	okAll := true
+	for i, e := range srcElems {
+		for valSlice.Len <= i {
+			// reflect.Append of a zero element
+			if valSlice.Len < valSlice.Cap {
+				valSlice.Arr.V.(*ArrayV).E[valSlice.Off+valSlice.Len] = in.zero(elemT)
+				valSlice.Len++
+			} else {
+				nc := grownCap(int(in.Sizes.Sizeof(elemT)), hasPointers(elemT), valSlice.Len, valSlice.Cap, 1)
+				ns := in.makeSlice(elemT, valSlice.Len+1, nc, "mapstructure append")
+				for j := 0; j < valSlice.Len; j++ {
+					ns.Arr.V.(*ArrayV).E[j] = clone(valSlice.Arr.V.(*ArrayV).E[valSlice.Off+j])
+				}
+				valSlice = ns
+			}
+		}
+		pl := msPlace{p: Pointer{O: valSlice.Arr, Path: []int{valSlice.Off + i}}, t: elemT, settable: true}
+		if !in.msDecode(fmt.Sprintf("%s[%d]", name, i), toData(e, srcElemT), pl, site, errs) {
+			okAll = false
+		}
+	}
+	in.msStore(out, valSlice, site)
+	return okAll
+}
+
+func (in *Interp) msDecodeMap(name string, data Iface, out msPlace, site ssa.Instruction, errs *[]string) bool {
+	mt := out.t.Underlying().(*types.Map)
+	cur := in.msLoad(out).(*MapV)
+	valMap := cur
+	if valMap == nil {
+		in.nextObj++
+		valMap = &MapV{ID: in.nextObj, M: map[interface{}]Value{}, Epoch: in.epoch}
+	}
+	dv, dt, ok := in.msIndirect(data)
+	if !ok {
+		*errs = append(*errs, fmt.Sprintf("'%s' expected a map, got nil pointer", name))
+		return false
+	}
+	switch kindOf(dt) {
+	case "map":
+		src := dv.(*MapV)
+		smt := dt.Underlying().(*types.Map)
+		if src == nil || len(src.Keys) == 0 {
+			if src == nil {
+				if cur != nil {
+					if !types.AssignableTo(dt, out.t) {
+						in.goPanic(Iface{T: opaqueErrorType, V: &Opaque{Desc: "reflect.Set: value not assignable"}}, site, true)
+					}
+					in.msStore(out, (*MapV)(nil), site)
+				}
+			} else {
+				in.msStore(out, valMap, site)
+			}
+			return true
+		}
+		okAll := true
+		for _, k := range in.P.MapOrder(in, src, "mapstructure") {
+			fieldName := fmt.Sprintf("%s[%v]", name, toGo(k))
+			kObj := in.newObj(in.zero(mt.Key()), "mapstructure key")
+			if !in.msDecode(fieldName, toData(k, smt.Key()), msPlace{p: Pointer{O: kObj}, t: mt.Key(), settable: true}, site, errs) {
+				okAll = false
+				continue
+			}
+			vObj := in.newObj(in.zero(mt.Elem()), "mapstructure elem")
+			sv, _ := src.Get(k)
+			if !in.msDecode(fieldName, toData(sv, smt.Elem()), msPlace{p: Pointer{O: vObj}, t: mt.Elem(), settable: true}, site, errs) {
+				okAll = false
+				continue
+			}
+			if in.trackWrites && valMap == cur && (valMap.Epoch < in.epoch || valMap.Owner != 0) {
+				in.Writes = append(in.Writes, WriteEvent{Site: "mapstructure.Decode@" + in.site(site), Label: "map", Owned: valMap.Owner != 0})
+			}
+			valMap.Set(kObj.V, vObj.V)
+		}
+		in.msStore(out, valMap, site)
+		return okAll
+	case "struct":
+		return in.msMapFromStruct(name, dv.(*StructV), dt, out, valMap, true, site, errs)
+	}
+	*errs = append(*errs, fmt.Sprintf("'%s' expected a map, got '%s'", name, kindOf(dt)))
+	return false
+}
+
+func exported(f *types.Var) bool { return f.Exported() }
+
+func (in *Interp) msMapFromStruct(name string, sv *StructV, st types.Type, out msPlace, valMap *MapV, setOut bool, site ssa.Instruction, errs *[]string) bool {
+	stt := st.Underlying().(*types.Struct)
+	mt := out.t.Underlying().(*types.Map)
+	for i := 0; i < stt.NumFields(); i++ {
+		f := stt.Field(i)
+		if !exported(f) {
+			continue
+		}
+		if !types.AssignableTo(f.Type(), mt.Elem()) {
+			*errs = append(*errs, fmt.Sprintf("cannot assign type '%s' to map value field of type '%s'", f.Type(), mt.Elem()))
+			return false
+		}
+		keyName := f.Name()
+		if kindOf(f.Type()) == "struct" {
+			in.nextObj++
+			vMap := &MapV{ID: in.nextObj, M: map[interface{}]Value{}, Epoch: in.epoch}
+			holder := in.newObj(vMap, "mapstructure nested map")
+			cp := in.newObj(clone(sv.F[i]), "mapstructure struct copy")
+			if !in.msDecode(keyName, Iface{T: types.NewPointer(f.Type()), V: Pointer{O: cp}}, msPlace{p: Pointer{O: holder}, t: out.t, settable: true}, site, errs) {
+				return false
+			}
+			valMap.Set(keyName, toMapElem(holder.V, out.t, mt.Elem()))
+		} else {
+			valMap.Set(keyName, toMapElem(clone(sv.F[i]), f.Type(), mt.Elem()))
+		}
+	}
+	if setOut {
+		in.msStore(out, valMap, site)
+	}
+	return true
+}
+
+// toMapElem converts a value of static type vt into the representation of a map element of type et.
+func toMapElem(v Value, vt, et types.Type) Value {
+	if _, ok := et.Underlying().(*types.Interface); ok {
+		if _, isI := vt.Underlying().(*types.Interface); isI {
+			return v
+		}
+		return Iface{T: vt, V: v}
+	}
+	return v
+}
+
+func (in *Interp) msDecodeStruct(name string, data Iface, out msPlace, site ssa.Instruction, errs *[]string) bool {
+	dv, dt, ok := in.msIndirect(data)
+	if !ok {
+		*errs = append(*errs, fmt.Sprintf("'%s' expected a map, got nil", name))
+		return false
+	}
+	if types.Identical(dt, out.t) {
+		in.msStore(out, dv, site)
+		return true
+	}
+	switch kindOf(dt) {
+	case "map":
+		return in.msStructFromMap(name, dv.(*MapV), dt, out, site, errs)
+	case "struct":
+		in.nextObj++
+		m := &MapV{ID: in.nextObj, M: map[interface{}]Value{}, Epoch: in.epoch}
+		mtype := types.NewMap(types.Typ[types.String], types.NewInterfaceType(nil, nil))
+		holder := in.newObj(m, "mapstructure tmp map")
+		if !in.msMapFromStruct(name, dv.(*StructV), dt, msPlace{p: Pointer{O: holder}, t: mtype, settable: true}, m, true, site, errs) {
+			return false
+		}
+		return in.msStructFromMap(name, m, mtype, out, site, errs)
+	}
+	*errs = append(*errs, fmt.Sprintf("'%s' expected a map, got '%s'", name, kindOf(dt)))
+	return false
+}
+
+func (in *Interp) msStructFromMap(name string, src *MapV, srcT types.Type, out msPlace, site ssa.Instruction, errs *[]string) bool {
+	smt := srcT.Underlying().(*types.Map)
+	if k := kindOf(smt.Key()); k != "string" && k != "interface" {
+		*errs = append(*errs, fmt.Sprintf("'%s' needs a map with string keys, has '%s' keys", name, k))
+		return false
+	}
+	stt := out.t.Underlying().(*types.Struct)
+	okAll := true
+	for i := 0; i < stt.NumFields(); i++ {
+		f := stt.Field(i)
+		fieldName := f.Name()
+		var raw Value
+		found := false
+		if src != nil {
+			if v, ok := src.Get(fieldName); ok {
+				raw, found = v, true
+			} else {
+				matches := 0
+				for _, k := range src.Keys {
+					ks, isS := k.(string)
+					if !isS {
+						if ki, isI := k.(Iface); isI {
+							ks, isS = ki.V.(string)
+						}
+					}
+					if isS && strings.EqualFold(ks, fieldName) {
+						if matches == 0 {
+							raw, _ = src.Get(k)
+						}
+						found = true
+						matches++
+					}
+				}
+				if matches > 1 {
+					panic(Unsupported{"mapstructure: two source keys fold to field " + fieldName + " (library behaviour depends on map iteration order)"})
+				}
+			}
+		}
+		if !found {
+			continue
+		}
+		if !exported(f) {
+			continue // CanSet() is false
+		}
+		fn := fieldName
+		if name != "" {
+			fn = name + "." + fieldName
+		}
+		pl := msPlace{p: Pointer{O: out.p.O, Path: extend(out.p.Path, i)}, t: f.Type(), settable: true}
+		if !in.msDecode(fn, toData(raw, smt.Elem()), pl, site, errs) {
+			okAll = false
+		}
+	}
+	return okAll
 }
